@@ -12,7 +12,7 @@ MOD = "mc.props.c03"
 TOL = 1e-9   # unit-free identity (DESIGN §5)
 
 SHEAR_PAIRS = [(a, b) for a in range(1, 7) for b in range(a, 7) if b >= 4]
-STRAINS = ["thirds", "const", "extreme", "field", "mixed-rows", "two-equal"]
+STRAINS = ["thirds", "const", "extreme", "field", "mixed-rows", "two-equal", "ones", "raw"]
 SCALES = [1.0, 1e-12, 1e-7, 1e9]      # the map is homogeneous: the same tensors on other numeric scales (Ry/bohr^3 values are ~1e-2..1e-12)
 GENERIC = None
 
@@ -81,11 +81,25 @@ def run_case(case):
     elif not numpy.allclose(srot.sum(axis=1), strain.sum(axis=1), atol=1e-12):
         viol.append(V("c03:strain-trace", f"c{a}{b}: trace of axial strains not preserved"))
 
-    def solve(o, C6, Tm):
+    from cij.util import c_ as _cc
+    ALL21 = [_cc(a2, b2) for a2, b2 in R.PAIRS21]
+
+    def solve(o, C6, Tm, present="asked"):
+        """present: how the caller's dictionaries are laid out - the asked keys in the asked order, reversed, sorted by Voigt
+        pair, or all 21 components (a caller may hand over the whole tensor; only the asked keys may be used)"""
         C = R.full_from_voigt(C6)
         Cr = R.rotate(C, Tm)
-        o.modulus = {k: numpy.array([comp(C, k)]) for k in o.get_modulus_keys()}
-        o.modulus_rotated = {k: numpy.array([comp(Cr, k)]) for k in o.get_modulus_keys_rotated()}
+        k1, k2 = list(o.get_modulus_keys()), list(o.get_modulus_keys_rotated())
+        if present == "reversed":
+            k1, k2 = k1[::-1], k2[::-1]
+        elif present == "sorted":
+            k1, k2 = sorted(set(k1), key=lambda k: tuple(k.voigt)), sorted(set(k2), key=lambda k: tuple(k.voigt))
+        elif present == "all21":
+            k1, k2 = [k for k in ALL21 if k != key], list(ALL21)
+        elif present == "all21-reversed":
+            k1, k2 = [k for k in ALL21[::-1] if k != key], ALL21[::-1]
+        o.modulus = {k: numpy.array([comp(C, k)]) for k in k1}
+        o.modulus_rotated = {k: numpy.array([comp(Cr, k)]) for k in k2}
         got = numpy.asarray(o.get_target_elastic_modulus()).ravel()[0]
         if numpy.iscomplexobj(got) and abs(got.imag) > 0:
             raise ValueError(f"complex result {got!r}")
@@ -111,6 +125,18 @@ def run_case(case):
         if not err <= TOL * numpy.abs(C6).max():
             viol.append(V("c03:inexact", f"c{a}{b} on tensor {name}: solver returned {got!r}, exact component {want!r}"))
             if len(viol) > 4:
+                break
+    # the result must not depend on how the caller lays out the dictionaries of known components
+    for present in ("reversed", "sorted", "all21", "all21-reversed"):
+        for name, C6 in tensors[:21] + tensors[231:232]:
+            try:
+                got, want = solve(obj, C6, T, present)
+            except Exception as ex:
+                viol.append(V(f"c03:dict-layout:raises:{type(ex).__name__}", f"c{a}{b} on {name}, dictionaries laid out '{present}': {ex!r}"))
+                break
+            n_eval += 1
+            if not abs(got - want) <= TOL * numpy.abs(C6).max():
+                viol.append(V(f"c03:dict-layout:{present}", f"c{a}{b} on tensor {name} with the known components supplied '{present}': solver returned {got!r}, exact component {want!r}"))
                 break
     # every sign pattern and column order of the frame: same pairing (eigenvalue <-> fraction), same result
     subst = 0
@@ -138,7 +164,7 @@ def run_case(case):
 
 
 def explore(ctx):
-    ctx.rule = ("15 shear-type keys x 6 axial-strain fields (incl. a hydrostatic row among anisotropic rows, two equal fractions); each case "
+    ctx.rule = ("15 shear-type keys x 8 axial-strain fields (incl. a hydrostatic row among anisotropic rows, two equal fractions, un-normalised triples (1,1,1), (0.9,1,1.2), (2,3,7)); known components handed over in 5 dictionary layouts (asked order, reversed, sorted, all 21 components in two orders); each case "
                 "runs the solver on the 21 unit tensors, all 210 pairwise sums (linearity is tested, not assumed) and one generic tensor, the "
                 "unit and generic tensors also on the numeric scales 1e-12, 1e-7, 1e9 (homogeneity), with exact components supplied "
                 "from an independent einsum rotation; plus all 48 sign/column-order variants of the frame; complete in "
